@@ -3,6 +3,7 @@ import Driver.Markers
 import Driver.Exit
 import Driver.Refs
 import Driver.AssembleE
+import Driver.AssembleH
 import Driver.Heat
 import Driver.Magnetics
 import Driver.PostInt
@@ -19,6 +20,7 @@ def main (args : List String) : IO UInt32 := do
   let stdout ← IO.getStdout
   match args with
   | "sparse" :: rest => Driver.Sparse.run (rest.headD "float") stdin stdout; return 0
+  | "assemble-h" :: _ => Driver.AssembleH.run stdin stdout; return 0
   | "assemble-e" :: _ => Driver.AssembleE.run stdin stdout; return 0
   | "magnetics" :: _ => Driver.Magnetics.run stdin stdout; return 0
   | "postint" :: _ => Driver.PostInt.run stdin stdout; return 0
